@@ -19,7 +19,7 @@
 From Coq Require Import String.
 From Rend Require Import base.Bytes gen.Consts_gen spec.MapSpec orca.Types handlers.Std orca.Orcas orca.Faults
   proto.Resp proto.ReqCommon proto.Stream proto.BinReq proto.TextReq proto.LoopShape proto.LoopShapeProofs
-  gen.Loop_gen gen.Orcas_gen gen.OrcasLink gen.LoopLink.
+  gen.Loop_gen gen.Orcas_gen gen.OrcasLink gen.LoopLink gen.OrcasGetLink gen.LoopGetLink.
 From Rend Require server.Listen.
 Open Scope N_scope.
 
@@ -80,6 +80,15 @@ Theorem c11_src_dispatch : forall r,
   sh_dispatch loop_src l1l2batch_ms r = Some (l1l2batch_src r).
 Proof. exact src_dispatch. Qed.
 Print Assumptions c11_src_dispatch.
+
+(* ... and with Get / GetE translated too (gen/OrcasGetLink.v, the subject of c01_src_full): the
+   loop hands them the request itself; only Noop/Quit/Version/Stat/Unknown stay hand-modelled *)
+Theorem c11_src_dispatch_full : forall r,
+  sh_dispatch loop_src l1only_msg r = Some (l1only_srcg r) /\
+  sh_dispatch loop_src l1l2_msg r = Some (l1l2_srcg r) /\
+  sh_dispatch loop_src l1l2batch_msg r = Some (l1l2batch_srcg r).
+Proof. exact src_dispatch_full. Qed.
+Print Assumptions c11_src_dispatch_full.
 
 (* (2)+(3) after the method returned e: Quit closes whatever it returned; otherwise no error ->
    next iteration, an application error (common.IsAppError) -> Error(request, reqType, err) and
